@@ -51,6 +51,9 @@ TEXT.update({
     "C15": {"technique": "exhaustive enumeration of retain reject-subsets with predicate call log oracle; Miri on small n",
             "design_ref": "DESIGN.md section 5 C15", "level_note": _MEM_NOTE,
             "level_text": "Exploration, exhaustive within n <= 9 (quick) / 12 (thorough): every subset of entries to remove, including none, all, the ends, alternating."},
+    "C16": {"technique": "fault enumeration: panic injected at the n-th user callback of every class for every (state, operation); post-panic structure gate, recorded-size sum, ledger, further use; ASan + Miri",
+            "design_ref": "DESIGN.md section 5 C16", "level_note": _MEM_NOTE + " States are sampled (small random histories); the crash points of each sampled (state, operation) are exhaustive. After a panic inside mutate the further use does not re-mutate that entry (its actual size may legitimately differ from its record; C16 speaks of recorded sizes).",
+            "level_text": "Fault enumeration over crash points: every callback index of every callback class of each sampled (state, operation) pair; 5*10^5 injected panics per quick run natively plus sanitizer/interpreter runs on the same enumeration."},
     "C17": {"technique": "fault enumeration: mem::forget after every call-string prefix of every iterator kind; ledger + structure gate + further use; ASan (no LSan) and Miri (ignore leaks)",
             "design_ref": "DESIGN.md section 5 C17", "level_note": _MEM_NOTE,
             "level_text": "Fault enumeration: the 'fault' is the program leaking the iterator; all leak points for lengths 0..=6 (quick) / 0..=9 (thorough) are enumerated."},
@@ -60,4 +63,4 @@ TEXT.update({
 })
 
 NOT_APPLICABLE = {p: "check under construction in this revision (see DESIGN.md section 5); will be claimed once its monitor exists" for p in
-                  ["C08", "C09", "C16", "C18", "C19"]}
+                  ["C08", "C09", "C18", "C19"]}
